@@ -3,6 +3,8 @@ package main
 import (
 	"encoding/binary"
 	"fmt"
+	"github.com/sirupsen/logrus"
+	"io"
 	"strings"
 	"time"
 
@@ -33,10 +35,21 @@ func bitsCase(cw *caseWriter, p []byte, label string, mustReject bool) {
 	}
 	got := readOnce(identityMode{}, p)
 	prop := "pass"
+	// … and at trace level the verdict is the same
+	oldLvl, oldOut := rscp.Log.GetLevel(), rscp.Log.Out
+	rscp.Log.SetOutput(io.Discard)
+	rscp.Log.SetLevel(logrus.TraceLevel)
+	atTrace := readOnce(identityMode{}, p)
+	rscp.Log.SetLevel(oldLvl)
+	rscp.Log.SetOutput(oldOut)
 	if got == "panic" || got == "hang" {
 		prop = "FAIL C04 decoder " + got
 	} else if mustReject && strings.HasPrefix(got, "ok ") {
 		prop = "FAIL C04 altered checksummed frame accepted: " + trunc(got, 120)
+	} else if mustReject && strings.HasPrefix(atTrace, "ok ") {
+		prop = "FAIL C04 altered checksummed frame accepted when the log level is trace: " + trunc(atTrace, 120)
+	} else if atTrace != got {
+		prop = "FAIL * the decoder's result depends on the log level: " + trunc(got, 80) + " vs " + trunc(atTrace, 80) + " at trace level"
 	}
 	cw.add("dec "+hexOf(p), got, "N "+label, prop)
 }
